@@ -83,3 +83,7 @@ pub fn refused<F: FnOnce() -> bool>(f: F) -> bool { f() }
 pub fn refused<F: FnOnce() -> bool + std::panic::UnwindSafe>(f: F) -> bool {
   match std::panic::catch_unwind(f) { Ok(b) => b, Err(e) => { if e.is::<AssumeFailed>() { std::panic::resume_unwind(e) } else { true } } }
 }
+
+/// natively: the symbolic environment of the counterexample (leap pattern, term spacing ...) occurs nowhere in the real data
+#[cfg(not(kani))]
+pub struct Unrealised;
